@@ -10,7 +10,7 @@ from vlib import common, poolcheck, values
 
 def expected_dumps(M, L, vals, size):
     ra = M.dump_message(L, vals, with_consts=True, null_flags=True)
-    tag = M.dump_message(L, vals, with_consts=True)
+    tag = M.dump_message(L, vals, with_consts=True, tag_extras=True)
     cur = M.dump_message(L, vals, with_consts=False, comp_consts=True)
     vis = M.dump_message(L, vals, with_consts=False, comp_consts=False, vis_extras=True)
     tail = "cursor_end=%d" % size
